@@ -11,12 +11,22 @@ import (
 type radicand struct {
 	class    string
 	num, den *big.Int
+	minK     int // read at least this many digits (0 = any)
 }
 
 func rootRadicands(r *rng, deg int, count int, tier string) []radicand {
 	var out []radicand
 	add := func(class string, num, den *big.Int) {
-		out = append(out, radicand{class, num, den})
+		out = append(out, radicand{class, num, den, 0})
+	}
+	// terminating roots with exactly 100·j digits: the end marker is the first value of a new block
+	for j := 1; j <= 2; j++ {
+		for _, c := range []int64{1, 7} {
+			a := new(big.Int).Add(pow(10, 100*j-1), big.NewInt(c))
+			p := new(big.Int).Exp(a, big.NewInt(int64(deg)), nil)
+			out = append(out, radicand{"len100k", p, big.NewInt(1), 100*j + 20})
+			out = append(out, radicand{"len100k", p, pow(10, deg*(40+r.intn(30))), 100*j + 20})
+		}
 	}
 	one := big.NewInt(1)
 	B := int64(100)
@@ -153,7 +163,11 @@ func depthFor(r *rng, tier string) int {
 	return ks[r.intn(len(ks))]
 }
 
+var rootLineCount int
+
 func emitRootLine(e *emitter, v, deg int, ctor string, rd radicand, k int, scale int64) {
+	rootLineCount++
+	interleave := rootLineCount%4 == 0 && k > 100
 	num, den := rd.num, rd.den
 	if scale > 1 { // non-reduced representation through the int64 / big.Int constructors
 		num = new(big.Int).Mul(num, big.NewInt(scale))
@@ -164,6 +178,13 @@ func emitRootLine(e *emitter, v, deg int, ctor string, rd radicand, k int, scale
 		if n.IsZero() {
 			d, _ := n.firstDigits(3)
 			return fmt.Sprintf("zero exp=%d digits=%q at0=%d", n.Exponent(), d, n.At(0))
+		}
+		if interleave {
+			// another Number of the same kind is created and used while this one is half read:
+			// Numbers must not share state
+			n.firstDigits(min(k, 100))
+			other := newRoot(v, deg, "i64", big.NewInt(3+int64(k%90)), big.NewInt(1))
+			other.firstDigits(150)
 		}
 		ds, ended := n.firstDigits(k)
 		en := 0
@@ -189,6 +210,9 @@ func genRoots(e *emitter, r *rng, tier string, degs []int) {
 	for _, deg := range degs {
 		for _, rd := range rootRadicands(r, deg, count, tier) {
 			k := depthFor(r, tier)
+			if k < rd.minK {
+				k = rd.minK
+			}
 			cs := ctorsFor(rd.num, rd.den)
 			// every version, one constructor each (rotating), plus occasionally all constructors
 			for v := 1; v <= 3; v++ {
@@ -215,7 +239,7 @@ func genRoots(e *emitter, r *rng, tier string, degs []int) {
 		// a few deep runs: 20000 digits
 		for _, deg := range degs {
 			for _, x := range []int64{2, 3, 7} {
-				rd := radicand{"deep", big.NewInt(x), big.NewInt(1)}
+				rd := radicand{"deep", big.NewInt(x), big.NewInt(1), 0}
 				for v := 1; v <= 3; v++ {
 					emitRootLine(e, v, deg, "i64", rd, 20000, 1)
 				}
